@@ -29,7 +29,7 @@
 import ast
 
 from ..model import AnchorMissing, CannotAnalyse, walk_no_nested
-from ..poly import Rat, C, mk_atom, subst, lem_min, lem_max, lem_log
+from ..poly import Rat, C, mk_atom, subst, lem_min, lem_max, lem_log, gamma_conds, restrict
 from ..vg import Evaluator, vkey, spec, atoms_of, Const, merge_outcomes
 from ..effects import effects_of, reachable
 from .common import holds_at, calls_to, site, key, attr_stores, kwarg, enclosing
@@ -144,7 +144,17 @@ def r2_policy(ctx):
             types[sp] = si
         ev = Evaluator(repo, f, types=types, no_inline={'get_roadm_target_power'} if mode else set()).run_function()
         fall = 0
-        for pc, val, _ in ev.outcomes:
+        # an outcome whose value still depends on whether a spectrum was given (a gated merge inside the value: the carriers chosen
+        # by a conditional) is split into its two cases, as if the source had tested it on the path
+        outcomes = []
+        for pc, val, x_ in ev.outcomes:
+            cs = sorted(c for c in gamma_conds(val) if sp and c == f'truth({sp})') if isinstance(val, Rat) else []
+            if cs and not any(ck == cs[0] for ck, _ in pc):
+                for tv in (True, False):
+                    outcomes.append((list(pc) + [(cs[0], tv)], restrict(val, {cs[0]: tv}), x_))
+            else:
+                outcomes.append((pc, val, x_))
+        for pc, val, _ in outcomes:
             if isinstance(val, Const) and val.v is None:
                 continue
             # which carriers are in scope on this path
@@ -154,7 +164,9 @@ def r2_policy(ctx):
             else:
                 this_mode = mode
             txt = vkey(val)
-            guard = pc[-1][0] if pc else ''
+            # the policy test that selects this return: the last condition on the path that tests a target setting
+            fam_pc = [(ck, v) for ck, v in pc if family(ck)]
+            guard = fam_pc[-1][0] if fam_pc else (pc[-1][0] if pc else '')
             st = f'{site(f)} [{this_mode}] when {guard if pc and pc[-1][1] else "otherwise"}'
             a = val.single_atom() if isinstance(val, Rat) else None
             if a is not None and a.kind == 'fn' and a.name.startswith('call:') and a.name.endswith('get_roadm_target_power'):
